@@ -9,6 +9,7 @@ code / are not alive, and the model raises exactly where the real code reads tha
 Assertion for ALL schedules and every fault position: the entry point terminates by raising — it neither returns
 normally nor waits forever.  Counterexample schedules are replayed on the real code with the failure injected.
 """
+from vlib.core import soft_attr as core_u
 import time
 
 import z3
@@ -269,7 +270,7 @@ def serial_propagates(run):
 def check(run):
     for st in STAGES:
         run.uses(st.entry, st.worker)
-    run.uses(tp.Pyramid._walk_parallel, tp._mp_walk_worker)
+    run.uses(core_u(tp.Pyramid, "_walk_parallel"), core_u(tp, "_mp_walk_worker"))
     import toasty.par_util as pu
     if hasattr(pu, "check_worker_exit_codes"):
         run.uses(pu.check_worker_exit_codes)
